@@ -170,7 +170,7 @@ def run(ctx):
     nds = 60 if quick else 400
     nprog = 50 if quick else 300
     ctx.rule = ("(dataset, access program) pairs. Dataset: 0..6 written row groups of 1..13 rows (+ fabricated empty and duplicated, i.e. "
-                "structurally equal, descriptors), simple file (opened by path or from an open file object) or hive directory (opened by "
+                "structurally equal, descriptors), simple file (opened by path or from an open file object), MULTI: single-file parts without _metadata each written from the columns in its own order (opened as directory or list), or hive directory (opened by "
                 "directory or _metadata), 0..2 partition columns, optionally a written index, 0..3 extra columns over 15 dtypes, page size default/64/200 bytes (several data pages per chunk), data page v1/v2; every frame "
                 "carries the injective columns id/u/g. Program: <= 3 handle operations from {slice [a:b:k] with None/negative/out-of-range/zero "
                 "step, integer pick, pickle, copy, deepcopy} then one of to_pandas / iter_row_groups(categories?) / head(n at every "
@@ -185,7 +185,8 @@ def run(ctx):
                {"nrg": 4, "scheme": "simple", "rich": True}, {"nrg": 3, "scheme": "simple", "index": "rix"},
                {"nrg": 2, "scheme": "hive", "index": "rix"},
                {"nrg": 0, "scheme": "simple"}, {"nrg": 0, "scheme": "hive"}, {"nrg": 1, "scheme": "simple"},
-               {"nrg": 3, "scheme": "hive", "part": ["p"]}, {"nrg": 6, "scheme": "simple"}, {"nrg": 2, "scheme": "hive", "part": ["p", "q"]}]
+               {"nrg": 3, "scheme": "hive", "part": ["p"]}, {"nrg": 6, "scheme": "simple"}, {"nrg": 2, "scheme": "hive", "part": ["p", "q"]},
+               {"nrg": 4, "scheme": "multi"}, {"nrg": 3, "scheme": "multi", "rich": True}]
     for i in range(nds):
         ds = R.gen_dataset(rng, corners[i] if i < len(corners) else None)
         jobs.append((ds, None, rng.randrange(1 << 40), nprog, True))
